@@ -76,7 +76,7 @@ def one(ctx, rng, xr, ops, names):
         except Exception as e:
             rec.skip(name, "batched call raised %s" % type(e).__name__)
             continue
-        tie = (op.exact or op.peak or name == "dp") and ties(x, op)
+        tie = (op.exact or op.peak or name in ("dp", "dm")) and ties(x, op)
         # (1) per-position equality
         if lead:
             sample = allpos if len(allpos) <= 12 else [allpos[i] for i in rng.choice(len(allpos), 12, replace=False)]
